@@ -123,9 +123,14 @@ static std::string maybe_long(Rng& r, std::string s) {
 
 static std::string mutate_string(Rng& r, std::string s) {
   if (s.empty()) return "x";
-  int c = r.range(0, 5);
+  int c = r.range(0, 6);
   size_t p = r.below(s.size());
   switch (c) {
+    case 6: {  // conversion specifications: a caller's string must never be used as a format
+      static const char* const f[] = {"%s", "%n", "%s%s%s%s", "%d%n", "%1000000d", "%%", "%ls", "%*d", "%hhn", "%1$s"};
+      s.insert(p, f[r.below(sizeof f / sizeof f[0])]);
+      break;
+    }
     case 0: s.erase(p, 1); break;
     case 1: s.insert(p, 1, (char)r.range(1, 255)); break;
     case 2: s[p] = (char)r.range(1, 255); break;
@@ -562,9 +567,11 @@ std::string render_crystal_file(const FileSpec& fs, bool* wellformed, std::vecto
 FileSpec gen_file_spec(Rng& r, const std::vector<std::string>& pool, bool faults) {
   FileSpec f;
   int n = r.range(0, 99);
-  int nc = n < 8 ? 0 : n < 60 ? r.range(1, 3) : n < 92 ? r.range(4, 8) : r.range(9, 12);
+  int nc = n < 8 ? 0 : n < 60 ? r.range(1, 3) : n < 92 ? r.range(4, 8) : n < 98 ? r.range(9, 12) : r.range(13, 35);
+  bool big = nc > 12;   // several growth steps inside one load: distinct names, few atoms
   for (int i = 0; i < nc; i++) {
     CrystalSpec c = gen_crystal_spec(r, pool);
+    if (big) { char b[16]; snprintf(b, sizeof b, "%02d", i); c.name = gen_name(r, 14) + "_" + b; if (c.natoms > 4) c.natoms = r.range(1, 4); }
     if (c.natoms == 0 && r.chance(3, 4)) c.natoms = r.range(1, 6);
     if (c.cellclass == 3) c.cellclass = 1;
     f.crystals.push_back(c);
